@@ -403,6 +403,19 @@ pub fn gen_world(seed: u64) -> C13World {
         }
     }
     let (main, main_text) = gen_module(&mut r, "main", None, main_dir.as_deref(), true);
+    if real_j.len() >= 2 && r.chance(1, 4) {
+        // the same library directory given more than once, by the same or another spelling, with other entries in
+        // between: the list is searched as given (right-most first), nothing is merged
+        let a = r.pick(&real_j).clone();
+        let again = match r.below(4) {
+            0 => a.clone(),
+            1 => format!("./{a}/"),
+            2 => format!("<ROOT>/{a}"),
+            _ => format!("{a}/../{a}"),
+        };
+        let at = r.usize_below(jdirs.len() + 1);
+        jdirs.insert(at, again);
+    }
     let mut argv: Vec<String> = Vec::new();
     for j in &jdirs {
         argv.push(if r.chance(1, 3) { "--jpath".into() } else { "-J".into() });
@@ -694,7 +707,7 @@ pub fn predict(w: &C13World, root: &Path) -> Predicted {
 
 /// Prediction when the existence test of the given spelled candidate paths fails (stat faults).
 pub fn predict_with(w: &C13World, root: &Path, absent: &BTreeSet<String>) -> Predicted {
-    let search: Vec<String> = w.jdirs.iter().rev().cloned().collect();
+    let search: Vec<String> = w.jdirs.iter().rev().map(|j| j.replace("<ROOT>", &root.to_string_lossy())).collect();
     let mut m = Model { w, root, search, by_canon: BTreeMap::new(), p: Predicted::default(), stack_guard: 0, dry: false, memo: BTreeMap::new(), absent: absent.clone() };
     // --ext-code-file arguments are loaded (not evaluated) before anything runs
     let (loaded, reprs): (Option<String>, Vec<String>) = match &w.main_kind {
